@@ -4,6 +4,7 @@ package c13
 import (
 	"fmt"
 	"math"
+	"os"
 	"sort"
 	"strconv"
 	"strings"
@@ -37,13 +38,17 @@ type POp struct {
 }
 
 type Case struct {
-	Binary     bool   `json:"binary"`
-	Dests      int    `json:"dests"`
-	Queue      int    `json:"queue"`
-	Common     pbt.M  `json:"common,omitempty"`
-	MaxPacket  int32  `json:"maxPacket"`
-	IDName     string `json:"idName,omitempty"`
-	BucketName string `json:"bucketName,omitempty"`
+	Binary bool  `json:"binary"`
+	Dests  int   `json:"dests"`
+	Queue  int   `json:"queue"`
+	Common pbt.M `json:"common,omitempty"`
+	// IncludeHost (not with ViaConfig): 1: Options.IncludeHost without a host among the common tags
+	// (every batch then carries host=<machine name> as well); 2: with host=custom-host (kept); 3: with
+	// host="" (replaced by the machine name)
+	IncludeHost int    `json:"includeHost,omitempty"`
+	MaxPacket   int32  `json:"maxPacket"`
+	IDName      string `json:"idName,omitempty"`
+	BucketName  string `json:"bucketName,omitempty"`
 	// ViaConfig (Compact protocol and default bucket tag names only - the configuration struct has no
 	// fields for the others): the reporter is built through m3.Configuration.NewReporter. 1: HostPorts
 	// lists the destinations and HostPort (a required field of the struct) repeats the first of them,
@@ -86,6 +91,9 @@ func tagStr() *rapid.Generator[pbt.S] {
 func gen(t *rapid.T) Case {
 	c := Case{Binary: rapid.Bool().Draw(t, "binary"), Dests: rapid.IntRange(1, 3).Draw(t, "dests"), Queue: rapid.SampledFrom([]int{1, 2, 8, 4096, 0}).Draw(t, "queue")}
 	c.Common = pbt.MapOf(pbt.PlainString(), pbt.AnyString(), 3).Draw(t, "common")
+	if rapid.IntRange(0, 3).Draw(t, "includeHost?") == 0 {
+		c.IncludeHost = rapid.IntRange(1, 3).Draw(t, "includeHost")
+	}
 	// 0: the reporter's default packet size; 65000: the most the UDP transport takes
 	c.MaxPacket = int32(rapid.SampledFrom([]int{1440, 1440, 4000, 32768, 0, 0, 65000}).Draw(t, "maxPacket"))
 	if rapid.IntRange(0, 4).Draw(t, "customNames") == 0 {
@@ -239,7 +247,21 @@ func run(c Case) (pbt.Outcome, error) {
 		r, err = cfg.NewReporter()
 		out.Classes = append(out.Classes, "built-from-configuration")
 	} else {
-		r, err = m3.NewReporter(m3.Options{HostPorts: addrs, Service: "svc", Env: "test", CommonTags: c.Common.Std(), Protocol: proto,
+		commonOpt := c.Common.Std()
+		if c.IncludeHost > 0 {
+			if commonOpt == nil {
+				commonOpt = map[string]string{}
+			}
+			switch c.IncludeHost {
+			case 2:
+				commonOpt["host"] = "custom-host"
+			case 3:
+				commonOpt["host"] = ""
+			default:
+				delete(commonOpt, "host")
+			}
+		}
+		r, err = m3.NewReporter(m3.Options{HostPorts: addrs, Service: "svc", Env: "test", CommonTags: commonOpt, IncludeHost: c.IncludeHost > 0, Protocol: proto,
 			MaxQueueSize: c.Queue, MaxPacketSizeBytes: c.MaxPacket, HistogramBucketIDName: c.IDName, HistogramBucketName: c.BucketName})
 	}
 	if err != nil {
@@ -411,6 +433,14 @@ func run(c Case) (pbt.Outcome, error) {
 	for k, v := range c.Common {
 		commonWant[string(k)] = string(v)
 	}
+	if c.IncludeHost > 0 && c.ViaConfig == 0 {
+		hn, _ := os.Hostname()
+		commonWant["host"] = hn
+		if c.IncludeHost == 2 {
+			commonWant["host"] = "custom-host"
+		}
+		out.Classes = append(out.Classes, "include-host")
+	}
 	for si, s := range sinks[:judged] {
 		if !s.WaitAll(nb) {
 			errs.Addf("destination %d: Close returned after %d batches were emitted but only %d datagrams arrived within 30s", si, nb, s.Count())
@@ -427,6 +457,9 @@ func run(c Case) (pbt.Outcome, error) {
 			}
 			gotCommon := map[string]string{}
 			for _, tg := range batch.CommonTags {
+				if _, dup := gotCommon[tg.Name]; dup {
+					errs.Addf("destination %d datagram %d carries the common tag %q twice: %v", si, gi, tg.Name, batch.CommonTags)
+				}
 				gotCommon[tg.Name] = tg.Value
 			}
 			if fmt.Sprint(gotCommon) != fmt.Sprint(commonWant) {
